@@ -462,7 +462,8 @@ def eval_merge(case):
       # circumstance of defect D4 (positional/joints.py pad_x_dof): a part without any joint limit
       # (`dof.limit is None`) merged with a part that has one
       key = f'merge:{pipe}:limit-none-part'
-    elif pipe == 'generalized' and limit_active(ra, oa, mis['step']) and limit_active(rb, ob, mis['step']):
+    elif (pipe == 'generalized' and mis['step'] >= 1 and not mis.get('nonfinite')
+          and limit_active(ra, oa, mis['step']) and limit_active(rb, ob, mis['step'])):
       # circumstance of finding F-C05-1: constraint.force solves ONE truncated projected-gradient
       # problem over the limit constraints of all parts (global step size and stopping rule)
       key = 'merge:generalized:limits-active-in-both-parts'
